@@ -83,6 +83,7 @@ class Context:
         self._pc_keys = set()
         self.decisions = 0
         self.forced = None  # optional list of forced truth values (path exploration)
+        self.snap = None  # optional threshold: |value| below it counts as zero when choosing a branch (approximate algebraic shadow points)
         self._aux_cache = {}
         self.angles = {}
         self.alg = {}  # vid -> (q, Poly): eager rewrite v^q -> Poly (e.g. s^2 -> 1 - c^2), applied after products
@@ -469,6 +470,10 @@ class Sym:
         if P.is_const():
             return _holds(P.const_value(), op)
         v = P.eval(CTX.shadow)
+        if CTX.snap is not None and v != 0 and abs(v) <= CTX.snap * max(1, max(abs(cf) for cf in P.t.values())):
+            # the shadow point approximates an algebraic point of a lower-dimensional region (engine.paths): a value this close to zero
+            # is taken as zero.  Only the CHOICE of the branch is affected; the recorded condition is decided exactly by the solver.
+            v = 0
         truth = _holds(v, op)
         CTX.decisions += 1
         CTX.record(Cond(P, op if truth else _NEG[op], "branch"))
@@ -789,6 +794,16 @@ def root(x, q):
             for b in (rd - 1, rd, rd + 1):
                 if b > 0 and a >= 0 and a ** q == abs(num) and b ** q == den:
                     return as_sym(Fraction(a if num >= 0 else -a, b))
+    if CTX.auxdef and (not x.d.is_const() or any(v in CTX.auxdef for v in x.n.vars())):
+        # radicand expressed with other auxiliaries (e.g. the exact sqrt(2)): bring it to normal form first, so that r^q -> x is a
+        # polynomial rewrite rule whenever possible
+        from .oblig import reduce_mod_sides
+
+        nn, dd = reduce_mod_sides(x.n), (x.d if x.d.is_const() else reduce_mod_sides(x.d))
+        if dd.is_const() and not dd.is_zero():
+            x = Sym(nn.scale(1 / dd.const_value()))
+        else:
+            x = Sym.make(nn, dd)
     key = _aux_key("root", x, q)
     c = CTX
     if key in c._aux_cache:
